@@ -32,7 +32,8 @@ THEOREMS = ['C12_factor_homomorphism', 'C12_welldim_homogeneous', 'C12_scale_ind
             'C12_whole_state_step_covariant_partial', 'C12_whole_state_hyps_satisfiable',
             'C12_whole_state_inverse_covariant', 'C12_whole_state_reads_range', 'C12_whole_state_space',
             'C12_whole_state_step_covariant', 'C12_whole_state_trajectory_covariant', 'C12_whole_state_inverse_hyps_satisfiable',
-            'C12_whole_state_tracers_covariant']
+            'C12_whole_state_tracers_covariant',
+            'C12_model_is_source']
 LEVEL = 'proof'
 LEVEL_TEXT = ('Coq theorems for every field and all non-zero scales: factor is a group homomorphism Z^4 -> F*; EVERY '
               'dimensionally well-typed expression of field operations is scale-covariant (hence re-dimensionalised '
